@@ -402,3 +402,31 @@ pub fn missing_return_programs() -> Vec<String> {
     }
     out
 }
+
+/// statements (the last one is the observed expression) that consume a variable `x` whose static
+/// type is `int|float` and whose value is the int 1: what they yield must depend on the value only,
+/// not on whether `x` was a constant when the text was parsed
+pub fn union_typed_consumers() -> Vec<Vec<&'static str>> {
+    vec![
+        vec!["m := mut x", "k := match m { c: mut int => \"narrow\", c: mut (int|float) => \"wide\", }", "m = 2.5", "(k, *m)"],
+        vec!["m := mut x", "if c: mut int = m { 1 } else { 0 }"],
+        vec!["a := [x]", "if v: [int] = a { \"ints\" } else { \"other\" }"],
+        vec!["a := [x, 2]", "match a { v: [int] => 1, v: [int|float] => 2, => 3, }"],
+        vec!["a := [x, x]", "it := a~", "it()", "it()", "it()"],
+        vec!["last := { it := [x]~; it(); it() }", "last"],
+        vec!["t := (x, 1)", "match t { v: (int, int) => 1, v: (int|float, int) => 2, => 3, }"],
+        vec!["s := struct{a := x}", "if v: struct{a: int} = s { 1 } else { 2 }"],
+        vec!["it := [x]~", "if v: () -> (bool, int) = it { 1 } else { 2 }"],
+        vec!["c := mut [x]", "if v: mut [int] = c { 1 } else { 2 }"],
+        vec!["a := [x] + [2]", "if v: [int] = a { 1 } else { 2 }"],
+        vec!["a := [x; 2]", "if v: [int] = a { 1 } else { 2 }"],
+        vec!["a := [x, 2][0:1]", "if v: [int] = a { 1 } else { 2 }"],
+        vec!["a := [x]~ $]", "if v: [int] = a { 1 } else { 2 }"],
+        vec!["a := [x]~ @ (v: int|float) -> int|float { return v; } $]", "match a { v: [int] => 1, v: [int|float] => 2, => 3, }"],
+        vec!["a := ([x, 2.5]~ \\ (v: int|float) -> bool { return v == 1; }).0", "match a { v: [int] => 1, v: [int|float] => 2, => 3, }"],
+        vec!["f := (v: int|float) -> any { return [v]; }", "a := f(x)", "if v: [int] = a { 1 } else { 2 }"],
+        vec!["g := () -> any { return mut x; }", "m := g()", "if c: mut int = m { 1 } else { 0 }"],
+        vec!["(x == 1, [x] == [1], x != 1.0, match x { 1 => \"one\", => \"other\", })"],
+        vec!["match x { i: int => (\"int\", i + 1), f: float => (\"float\", 0), }"],
+    ]
+}
